@@ -26,7 +26,7 @@ def retarget (rem find repl : List Setting) (finds : List (Nat × Nat)) :
     | none => acc) (rem, find, repl)
 
 /-- one iteration of the `for key, settings_add, settings_rem in incoming_fmts` loop -/
-def iaddStep (shift : Nat) (actPrev : List Setting) (st : IaddSt) (kp : Nat × Point) : IaddSt :=
+def iaddStep (shift : Nat) (actPrev : List Setting) (laterAdds : List Setting) (st : IaddSt) (kp : Nat × Point) : IaddSt :=
   let key := kp.1 + shift
   let add := kp.2.add
   let rem := kp.2.rem
@@ -35,7 +35,8 @@ def iaddStep (shift : Nat) (actPrev : List Setting) (st : IaddSt) (kp : Nat × P
     let k := add.length
     let head := mine.rem.take k
     if key = shift ∧ !add.isEmpty ∧ texts head == texts add ∧
-        sameRefs (actPrev.filter (fun s => hasId head s.id)) head then
+        sameRefs (actPrev.filter (fun s => hasId head s.id)) head ∧
+        !(head.any (fun s => hasId laterAdds s.id)) then
       let mine' : Point := { mine with rem := mine.rem.drop k }
       if !mine'.nonEmpty ∧ rem.isEmpty then
         { f := st.f.erase key, find := add, repl := head }
@@ -54,7 +55,9 @@ def iadd (a b : AStr) : AStr :=
   let shift := a.len
   let s' := a.s ++ b.s
   let actPrev := ({ a with s := s' } : AStr).ansiSettingsAt ((shift : Int) - 1)
-  let r := b.fmts.foldl (iaddStep shift actPrev) { f := a.fmts, find := [], repl := [] }
+  -- start markers of the incoming string at keys other than 0: a merged setting must not start again there
+  let laterAdds := (b.fmts.filter (fun kp => kp.1 != 0)).flatMap (fun kp => kp.2.add)
+  let r := b.fmts.foldl (iaddStep shift actPrev laterAdds) { f := a.fmts, find := [], repl := [] }
   { s := s', fmts := r.f }
 
 /-- `AnsiString.join(x1, ..., xn)` for AnsiString arguments -/
